@@ -70,4 +70,10 @@ def jobs(tier, seed):
             continue
         for cfg in cls.QUICK + (cls.THOROUGH if tier == "thorough" else []):
             js.append((cfg, "checks.C09", "run", {"cfg": cfg}))
+        # harnesses whose reference model follows the constants / reward function of a constructor variant (REF_REWARD_VARIANTS) also
+        # run their non-default variants (first quick configuration): non-default reward functions and scalars are code paths of their own
+        if getattr(cls, "REF_REWARD_VARIANTS", False):
+            for i, over in enumerate(getattr(cls, "REWARD_VARIANTS", [{}])):
+                if i:
+                    js.append((cls.QUICK[0] + f"#{i}", "checks.C09", "run", {"cfg": cls.QUICK[0], "over": over}))
     return js
